@@ -43,6 +43,9 @@ FAULTS = [
     [("callDisc",), ("reset",)], [("callDisc",), S, ("reset",)], [("force",), ("force",)], [("eof",), ("reset",)],
     [("callDisc",), ("data", ["hello:11"]), S, ("reset",), S, S],
     [("callStart",)], [("callFinish",)],
+    # a phase that failed or was cancelled, then the same phase called again on the used object
+    [("resolved", 0), S, ("callStart",)], [("timer", "resolve"), S, ("callStart",)], [("cancel", "start"), S, ("callStart",)],
+    [("sockDone", 0), S, ("callStart",)], [("reset",), S, S, ("callFinish",)], [("cancel", "finish"), S, ("callFinish",)],
 ]
 
 
